@@ -241,13 +241,29 @@ fn mutate(rng: &mut Rng, b: &[u8]) -> Vec<u8> {
     x
 }
 
+/// key derivation record:  C K S <password hex>  |  C K L <user hex> <realm hex> <password hex> <alg>   ->  I OK <key hex> | ERR | PANIC
+fn run_key(out: &mut Out, f: &[&str]) {
+    out.rec(&f.join(" "));
+    let s = |h: &str| String::from_utf8(unhex(h)).unwrap_or_default();
+    let r = guarded(|| {
+        if f[2] == "S" {
+            HMACKey::new_short_term(s(f[3])).ok().map(|k| k.as_bytes().to_vec())
+        } else {
+            let alg = Algorithm::from(AlgorithmId::from(f[6].parse::<u16>().unwrap()));
+            HMACKey::new_long_term(s(f[3]), s(f[4]), s(f[5]), alg).ok().map(|k| k.as_bytes().to_vec())
+        }
+    });
+    match r { Err(()) => out.imp("PANIC"), Ok(None) => out.imp("ERR"), Ok(Some(k)) => out.imp(&format!("OK {}", hex(&k))) }
+}
+
 fn main() {
     let args = Args::parse();
     let mut out = args.writer();
     if let Some(lines) = args.replay_lines() {
         for l in lines {
             let f: Vec<&str> = l.split(' ').collect();
-            if f[0] == "C" && f[1] == "F" { run_faults(&mut out, f[2], &unhex(f[3]), &unhex(f[4])) }
+            if f[0] == "C" && f[1] == "K" { run_key(&mut out, &f) }
+            else if f[0] == "C" && f[1] == "F" { run_faults(&mut out, f[2], &unhex(f[3]), &unhex(f[4])) }
             else if f[0] == "C" { run_case(&mut out, &unhex(f[1]), &unhex(f[2])) }
         }
         out.finish();
@@ -285,6 +301,27 @@ fn main() {
             }
         }
     }
-    out.note(&format!("suite=wire structured={} mutated={} random={} fault_enumerations={}", structured, mutated, random, faults));
+    // key derivation over generated user / realm / password strings (ASCII printable, with controls, empty, non-ASCII)
+    let nkeys = if args.thorough { 4000 } else { 200 };
+    let mut keys = 0u64;
+    for k in 0..nkeys {
+        if k % args.shards != args.shard { continue }
+        let mut gs = |rng: &mut Rng| -> Vec<u8> {
+            let n = *rng.pick(&[0usize, 1, 2, 5, 9, 30, 64, 65, 200]);
+            let mut v: Vec<u8> = (0..n).map(|_| 0x20 + rng.below(0x5F) as u8).collect();
+            match rng.below(12) { 0 if n > 0 => v[0] = 0x09, 1 if n > 0 => { v[n - 1] = 0x7F } 2 => v.extend_from_slice("\u{e9}".as_bytes()), _ => {} }
+            v
+        };
+        let line = if k % 3 == 0 {
+            format!("C K S {}", hex(&gs(&mut rng)))
+        } else {
+            let (u, r, p) = (gs(&mut rng), gs(&mut rng), gs(&mut rng));
+            format!("C K L {} {} {} {}", hex(&u), hex(&r), hex(&p), *rng.pick(&[1u16, 2, 2, 1, 0, 3]))
+        };
+        let f: Vec<&str> = line.split(' ').collect();
+        run_key(&mut out, &f);
+        keys += 1;
+    }
+    out.note(&format!("suite=wire structured={} mutated={} random={} fault_enumerations={} key_derivations={}", structured, mutated, random, faults, keys));
     out.finish();
 }
